@@ -41,6 +41,9 @@ class NPShim:
 
     @staticmethod
     def asarray(obj, dtype=None, **kw):
+        # numpy's documented meaning: NO copy when the input already is an array of the requested dtype (the caller's object is returned)
+        if isinstance(obj, _np.ndarray) and (dtype is None or obj.dtype == _np.dtype(dtype) or (obj.dtype == object and _has_sym(obj))):
+            return obj
         return NPShim.array(obj, dtype=dtype, **kw)
 
     @staticmethod
